@@ -7,6 +7,7 @@ import (
 	"strings"
 
 	"github.com/ory/fosite"
+	"github.com/ory/fosite/compose"
 	"github.com/ory/fosite/zz_verif_h/world"
 	"github.com/ory/fosite/zz_verif_h/zz"
 )
@@ -249,7 +250,8 @@ func ZZ_C05_issuance() {
 	zz.SetOption("clock.fixed", 1)
 	b := getBounds()
 	cfgScopes, effScopes := refreshScopes(b)
-	wd := world.New(world.Options{Tweak: func(cfg *fosite.Config) { cfg.RefreshTokenScopes = cfgScopes }})
+	wd := world.New(world.Options{Tweak: func(cfg *fosite.Config) { cfg.RefreshTokenScopes = cfgScopes },
+		Extra: []compose.Factory{compose.RFC8628DeviceFactory, compose.RFC8628DeviceAuthorizationTokenFactory}})
 	c1 := wd.Store.Clients["c1"].(*fosite.DefaultClient)
 	granted := grantedScopes(b)
 	c1.Scopes = append([]string{}, granted...)
@@ -257,7 +259,7 @@ func ZZ_C05_issuance() {
 	if !hasGrant {
 		c1.GrantTypes = without(c1.GrantTypes, "refresh_token")
 	}
-	flow := zz.Choice("flow", 2)
+	flow := zz.Choice("flow", 3)
 	var resp fosite.AccessResponder
 	var err error
 	switch flow {
@@ -270,16 +272,29 @@ func ZZ_C05_issuance() {
 	case 1:
 		zz.Cover("flow:password", true)
 		resp, err = wd.Password("c1", granted)
+	case 2:
+		zz.Cover("flow:device", true)
+		dreq, derr := wd.Provider.NewDeviceRequest(wd.Ctx, world.Post(url.Values{"client_id": {"c1"}, "client_secret": {world.Secret1}, "scope": {strings.Join(granted, " ")}}))
+		zz.Assume(derr == nil)
+		dresp, derr := wd.Provider.NewDeviceResponse(wd.Ctx, dreq, world.NewSession("peter"))
+		zz.Assume(derr == nil)
+		for _, r := range wd.Store.DeviceAuths { // the resource owner approves and grants what was requested
+			r.SetUserCodeState(fosite.UserCodeAccepted)
+			for _, g := range granted {
+				r.GrantScope(g)
+			}
+		}
+		resp, err = wd.TokenAs("c1", world.Secret1, url.Values{"grant_type": {"urn:ietf:params:oauth:grant-type:device_code"}, "device_code": {dresp.GetDeviceCode()}})
 	}
 	zz.Assume(err == nil)
 	rt := world.RefreshTokenOf(resp)
 	scopeRule := len(effScopes) == 0 || intersects(granted, effScopes)
-	want := scopeRule && (flow != 0 || hasGrant)
+	want := scopeRule && (flow == 1 || hasGrant)
 	zz.Observe("issued", rt != "")
 	if rt != "" {
 		zz.Cover("issued", true)
 		zz.Assert(scopeRule, "refresh token only issued when the grant contains a configured refresh scope")
-		zz.Assert(flow != 0 || hasGrant, "code flow issues a refresh token only to clients registered for refresh_token")
+		zz.Assert(flow == 1 || hasGrant, "code and device flows issue a refresh token only to clients registered for refresh_token")
 		active, ar := wd.Introspect(rt, fosite.RefreshToken)
 		zz.Assert(active, "issued refresh token is active")
 		if active {
@@ -288,7 +303,7 @@ func ZZ_C05_issuance() {
 	} else {
 		zz.Cover("not-issued", true)
 		zz.Cover("not-issued:no-refresh-scope", !scopeRule)
-		zz.Cover("not-issued:client-lacks-grant", flow == 0 && !hasGrant)
+		zz.Cover("not-issued:client-lacks-grant", flow != 1 && !hasGrant)
 		zz.Assert(!want, "refresh token is issued when the rule allows it")
 	}
 }
